@@ -41,6 +41,9 @@ def run(ctx):
     for i in range(70 * n):
         c, qs = mcircuits.clifford_deep(cirq, ctx.rng)
         case_checks(ctx, cirq, c, qs, 'clifford', checks)
+    for i in range(40 * n):
+        c, qs = mcircuits.pauli_measure_circuit(cirq, ctx.rng)
+        case_checks(ctx, cirq, c, qs, 'pauli', checks)
     sample_stream(ctx, cirq, 25 * n)
     evaluate(ctx, checks)
 
@@ -68,6 +71,8 @@ def case_checks(ctx, cirq, c, qs, mode, checks):
     model = f'(exec FOps {shape} {mops} {init})'
     desc = str(c).replace('\n', ' | ')[:400]
     entries = ['Simulator.run', rng.choice(['Simulator.simulate', 'DensityMatrixSimulator.run', 'DensityMatrixSimulator.simulate'])]
+    if mode == 'pauli':
+        entries = ['Simulator.run', 'DensityMatrixSimulator.run', rng.choice(['Simulator.simulate', 'DensityMatrixSimulator.simulate'])]
     if mode == 'clifford':
         entries += ['CliffordSimulator.run', 'StabilizerSampler.run']
     for entry in entries:
